@@ -118,6 +118,11 @@ CLAIMED = {
         note="Partial: repeated/late metadata, interleaved/clashing families and unit rules are covered by correspondence and direct oracle only; _count placement other than directly after the bucket likewise. Two known findings (duplicate bucket line dropped before the checks; le spelt 'nan').",
         technique='Coq proof over executable Gallina model + differential correspondence (extracted OCaml) + direct property oracle',
         ref='7/C15'),
+    'C12': dict(
+        text="14 theorems over the composition of the C01, C08/C09 models (model/Equiv.v): for every single-process history over counters, gauges of all 10 modes, summaries and histograms, norm(in-memory collection) and norm(multiprocess collection of the same history written through the file-backed store and merged by the collector) are equal as multisets up to label order and numeric value (C12_equiv), call-by-call the two back-ends return the same outcome, each family's file holds exactly the encoding of the in-memory children, no foreign families. Tie: the same history driven through the real in-process back-end and, in a child interpreter, through the real file-backed back-end and MultiProcessCollector; both compared with their models and with each other (direct oracle) after every step.",
+        note='Domain of the theorem: no remove()/clear(), histogram bounds strictly increasing with non-negative first bound, no gauge label named pid, counts < 2^53 (the four excluded classes are known findings with _refuted witnesses: negative first bound exposes _sum only in multiprocess mode, numerically equal bounds merge, a label named pid is overwritten/stripped, remove()/clear() are not implemented by the file store). Trusted: float laws FL1/FL4 and < facts as Section hypotheses, JSON key codec.',
+        technique='Coq proof over executable Gallina model + differential correspondence (extracted OCaml) + direct property oracle',
+        ref='7/C12'),
 }
 
 ALL = ['C%02d' % i for i in range(1, 20)]
